@@ -312,10 +312,13 @@ def check(repo, res, tier):
                        canon.c(e.node.value, e.frame) == 'ScheduleStatus.DELAYED' for e in p.events)
             if not sets:
                 bad = p
-    if not n_branch:
+    def general_guard():
+        """number of DELAYED assignments whose guard is exactly "some task of the plan is FINISHED
+        and flagged", None when one is not"""
         # any other arrangement (flagged finished tasks gathered first, loops over a filtered copy,
         # a test of "is the collection empty"): the guard of the DELAYED assignment, read off its
         # enclosing loops and conditions, must be  exists t in plan.tasks: FINISHED(t) and t.delay_flag
+        cnt = [0, 0]
         from ..index import guard_stack
         from ..paths import assigned_names
         ufr = Frame(u)
@@ -374,9 +377,16 @@ def check(repo, res, tier):
                         else:
                             lits |= plogic.must(t, ufr, pol)
                 if okg and quantified and lits == want:
-                    n_branch += 1
+                    cnt[0] += 1
                 else:
-                    bad = upaths[0]
+                    cnt[1] += 1
+        return None if cnt[1] or not cnt[0] else cnt[0]
+    if not n_branch:
+        g_ = general_guard()
+        if g_:
+            n_branch += g_
+        else:
+            bad = upaths[0]
     else:
         # path mode found the branch: it must be reached for EVERY task of the plan -- the loop
         # around it runs over the plan's tasks and is not left early (a task behind the exit would
@@ -390,7 +400,8 @@ def check(repo, res, tier):
                     canon.c(n.value, ufr) == 'ScheduleStatus.DELAYED':
                 loops = [g[1] for g in (guard_stack(u.node, n) or []) if g[0] == 'for']
                 whiles = [g for g in (guard_stack(u.node, n) or []) if g[0] == 'while']
-                if len(loops) != 1 or whiles or ppc.p(loops[0].iter, ufr) != T or loop_leaves_early(loops[0]):
+                if (len(loops) != 1 or whiles or ppc.p(loops[0].iter, ufr) != T or loop_leaves_early(loops[0])) \
+                        and not general_guard():
                     bad = upaths[0]
                     res.bad('C15.Y5', u, n, 'DELAYED is not examined for every task of the plan',
                             'the finished-and-flagged test is made inside a loop over %s that %s: a flagged task that '
